@@ -136,7 +136,7 @@ def run(ctx):
         ctx.count("corpus")
         ctx.case({"lib": c["lib"], "target": c["target"]}, nontrivial=True)
         check_lib(ctx, {"S": c["lib"]}, c["target"], drv)
-    n_libs = 90 if quick else 1500
+    n_libs = 80 if quick else 1500
     done = tries = 0
     while done < n_libs and tries < 30 * n_libs:
         tries += 1
